@@ -92,7 +92,7 @@ def run_families(ck, families, nontrivial=None, maxsteps=60000, guard_is_violati
             again = []
             for v, fid in d11_candidates:
                 s2 = copy.deepcopy(v.session)
-                s2["pregrow"] = 300000
+                s2["pregrow"] = 60000
                 s2["items"] = s2["items"][:v.info.get("item", len(s2["items"]))]     # up to and including the diverging item
                 again.append(s2)
             vs2 = sess.judge(again, cmp=cmp, mode=mode, maxsteps=maxsteps, ck=ck, part=name + " (D11 confirmation runs)", budget=budget)
